@@ -57,6 +57,11 @@ static EFFECT: Racy<[u64; MAXK]> = Racy::new([0; MAXK]);
 static CEND: [AtomicBool; MAXK] = [const { AtomicBool::new(false) }; MAXK];
 static HRET: [AtomicBool; MAXK] = [const { AtomicBool::new(false) }; MAXK];
 static GATE: AtomicU32 = AtomicU32::new(1);
+/// gate mode 2: raised by the handle owner right after `spawn` has returned; the closure waits for it
+/// (a closure may wait for its spawner: spawn must not wait for the closure)
+static HGATE: AtomicU32 = AtomicU32::new(0);
+/// scheduled commands that got stuck in this process (a party neither reached a point nor left)
+static STUCK_CMDS: AtomicU32 = AtomicU32::new(0);
 static STARTED: [AtomicBool; MAXK] = [const { AtomicBool::new(false) }; MAXK];
 /// race batches: no per-thread events at all (the race window must stay narrow)
 static QUIET: AtomicBool = AtomicBool::new(false);
@@ -191,6 +196,8 @@ struct ThreadPlan {
     /// 0 nothing, 1 short spin, 2 yield, >=3: sleep that many microseconds
     pre: u32,
     gate: bool,
+    /// wait for the spawner's post-spawn signal (HGATE)
+    hgate: bool,
     /// how a panicking closure panics (see `do_panic`)
     pk: u8,
     /// what the closure does before it finishes (see `work`)
@@ -397,6 +404,13 @@ fn body<T: Tagged>(p: ThreadPlan) -> T {
         2 => sys::sched_yield(),
         us => sys::sleep_us(us as u64),
     }
+    if p.hgate {
+        // no deadline worth the name: if the spawner never gets to raise it, that is the finding
+        let t0 = sys::now_us();
+        while HGATE.load(Ordering::SeqCst) == 0 && sys::now_us() - t0 < 60_000_000 {
+            sys::futex_wait(HGATE.as_ptr() as usize, 0, 10_000);
+        }
+    }
     if p.gate {
         let t0 = sys::now_us();
         while GATE.load(Ordering::SeqCst) == 0 && sys::now_us() - t0 < 3_000_000 {
@@ -498,7 +512,7 @@ fn h_race(n: u32, seed: u64, spin: u32, drop_pct: u32) {
     for i in 0..n {
         let k = NEXT_K.fetch_add(1, Ordering::SeqCst);
         STARTED[k as usize % MAXK].store(false, Ordering::SeqCst);
-        let plan = ThreadPlan { k, party: 0, panic: false, pre: 0, gate: false, pk: 0, wk: 0 };
+        let plan = ThreadPlan { k, party: 0, panic: false, pre: 0, gate: false, hgate: false, pk: 0, wk: 0 };
         let join = rng.below(100) >= drop_pct;
         let wait = spin_wait_started;
         macro_rules! go {
@@ -585,7 +599,7 @@ enum HOp {
 enum Cmd {
     None,
     Batch { n: u32, seed: u64, conc: u32, panic_pct: u32, drop_pct: u32, types: u32 },
-    One { ty: u32, panic: bool, op: u8, pre: u32, hdelay: u32, gate: bool, pk: u8, wk: u8 },
+    One { ty: u32, panic: bool, op: u8, pre: u32, hdelay: u32, gate: u8, pk: u8, wk: u8 },
     Prog { ops: [HOp; 8], n: usize },
     Race { n: u32, seed: u64, spin: u32, drop_pct: u32 },
 }
@@ -648,7 +662,7 @@ fn h_batch(n: u32, seed: u64, conc: u32, panic_pct: u32, drop_pct: u32, types: u
         // kinds that hold a process-wide print lock are left to their own runs
         let pk = [0u8, 3, 4, 5, 6, 7, 8, 9][rng.below(8) as usize];
         let wk = [0u8, 0, 0, 0, 3, 4, 1, 2][rng.below(8) as usize];
-        let plan = ThreadPlan { k, party: 0, panic: rng.below(100) < panic_pct, pre, gate: false, pk, wk };
+        let plan = ThreadPlan { k, party: 0, panic: rng.below(100) < panic_pct, pre, gate: false, hgate: false, pk, wk };
         let Some(h) = spawn_any(ty, plan) else { continue };
         if used == conc {
             // evict a random victim first
@@ -670,11 +684,20 @@ fn h_batch(n: u32, seed: u64, conc: u32, panic_pct: u32, drop_pct: u32, types: u
     }
 }
 
-fn h_one(ty: u32, panic: bool, op: u8, pre: u32, hdelay: u32, gate: bool, pk: u8, wk: u8) {
+fn h_one(ty: u32, panic: bool, op: u8, pre: u32, hdelay: u32, gate: u8, pk: u8, wk: u8) {
     let k = NEXT_K.fetch_add(1, Ordering::SeqCst);
     CUR_K.store(k, Ordering::SeqCst);
-    let plan = ThreadPlan { k, party: 0, panic, pre, gate, pk, wk };
-    let Some(h) = spawn_any(ty, plan) else { return };
+    let plan = ThreadPlan { k, party: 0, panic, pre, gate: gate == 1, hgate: gate == 2, pk, wk };
+    if gate == 2 {
+        HGATE.store(0, Ordering::SeqCst);
+    }
+    let r = spawn_any(ty, plan);
+    if gate == 2 {
+        // spawn has returned: let the closure go on
+        HGATE.store(1, Ordering::SeqCst);
+        sys::futex_wake(HGATE.as_ptr() as usize, 8);
+    }
+    let Some(h) = r else { return };
     if hdelay > 0 {
         sys::sleep_us(hdelay as u64);
     }
@@ -703,7 +726,7 @@ fn h_prog(ops: &[HOp]) {
             HOp::Spawn { party, ty, panic } => {
                 // panic kinds 0, 3..9 in turn (the kinds that hold a process-wide print lock have their own runs)
                 let r = ((base + party as u32) % 8) as u8;
-                let plan = ThreadPlan { k: base + party as u32, party, panic, pre: 0, gate: false, pk: if r == 0 { 0 } else { r + 2 }, wk: 0 };
+                let plan = ThreadPlan { k: base + party as u32, party, panic, pre: 0, gate: false, hgate: false, pk: if r == 0 { 0 } else { r + 2 }, wk: 0 };
                 handles[party as usize] = spawn_any(ty, plan);
             }
             HOp::Join { party } => {
@@ -876,13 +899,14 @@ fn cmd_one(line: &str) {
         Some("keep") => 2,
         _ => 0,
     };
-    let gate = num(line, "gate", 0) == 1;
+    let gmode = num(line, "gate", 0) as u8;
+    let gate = gmode == 1;
     let wake = num(line, "wake", 0) == 1;
     if gate {
         GATE.store(0, Ordering::SeqCst);
     }
     sched::WAIT_ADDR.store(0, Ordering::SeqCst);
-    let s = send(Cmd::One { ty, panic, op, pre: num(line, "pre", 0) as u32, hdelay: num(line, "hdelay", 0) as u32, gate, pk: num(line, "pk", 0) as u8, wk: num(line, "wk", 0) as u8 });
+    let s = send(Cmd::One { ty, panic, op, pre: num(line, "pre", 0) as u32, hdelay: num(line, "hdelay", 0) as u32, gate: gmode, pk: num(line, "pk", 0) as u8, wk: num(line, "wk", 0) as u8 });
     if wake {
         let woken = sched::stray_wake(1_500_000);
         if woken > 0 {
@@ -988,6 +1012,11 @@ fn parse_ops(line: &str) -> ([HOp; 8], usize) {
 }
 
 fn cmd_sched(line: &str) {
+    if STUCK_CMDS.load(Ordering::SeqCst) >= 2 {
+        // every stuck schedule costs a full time-out: two are evidence enough for this process
+        Ev::new("sched_skipped").s("why", "two scheduled commands got stuck before").emit();
+        return;
+    }
     let (ops, nops) = parse_ops(line);
     sched::reset();
     let base = NEXT_K.fetch_add(4, Ordering::SeqCst);
@@ -1134,6 +1163,7 @@ fn cmd_sched(line: &str) {
             diverged = true;
             lenient = true;
             if stuck {
+                STUCK_CMDS.fetch_add(1, Ordering::SeqCst);
                 break;
             }
         }
@@ -1152,6 +1182,10 @@ fn cmd_sched(line: &str) {
 /// of tiny_std::verif_thread)}; everything else runs through.  One execution per schedule, each
 /// between its own baseline / quiesce so that it is judged like any other run.
 fn cmd_explore(line: &str) {
+    if STUCK_CMDS.load(Ordering::SeqCst) >= 2 {
+        Ev::new("sched_skipped").s("why", "two scheduled commands got stuck before").emit();
+        return;
+    }
     let (ops, nops) = parse_ops(line);
     let max_exec = num(line, "max", 64) as usize;
     let saved = sched::PASS_MASK.load(Ordering::SeqCst);
@@ -1195,6 +1229,10 @@ fn cmd_explore(line: &str) {
                         ne += 1;
                     }
                 }
+            }
+            if stuck {
+                STUCK_CMDS.fetch_add(1, Ordering::SeqCst);
+                Ev::new("diverge").u("i", steps as u64).s("tok", "explore").s("why", "a party did not reach a point, park, or exit in time").emit();
             }
             if ne == 0 || stuck || steps > 200 {
                 break;
@@ -1245,7 +1283,7 @@ fn cmd_explore(line: &str) {
                 break;
             }
         }
-        if !found || nexec >= max_exec {
+        if !found || nexec >= max_exec || STUCK_CMDS.load(Ordering::SeqCst) >= 2 {
             Ev::new("explore_end").u("executions", nexec as u64).b("complete", !found).emit();
             break;
         }
